@@ -398,9 +398,116 @@ def t_methodorder(tree):
     return tree
 
 
+def t_assert2if(tree):
+    """`assert c, m` -> `if not c: raise AssertionError(m)`"""
+    class T(ast.NodeTransformer):
+        def visit_Assert(self, node):
+            exc = ast.Call(func=ast.Name(id="AssertionError", ctx=ast.Load()), args=[node.msg] if node.msg is not None else [], keywords=[])
+            return ast.If(test=ast.UnaryOp(op=ast.Not(), operand=node.test), body=[ast.Raise(exc=exc, cause=None)], orelse=[])
+    return T().visit(tree)
+
+
+def t_msgtext(tree):
+    """every string literal inside a `raise` statement / warning call gets a different text"""
+    for n in ast.walk(tree):
+        if isinstance(n, ast.Raise) and n.exc is not None:
+            for c in ast.walk(n.exc):
+                if isinstance(c, ast.Constant) and isinstance(c.value, str):
+                    c.value = c.value + " (see the documentation)"
+    return tree
+
+
+def t_dict2lit(tree):
+    """`dict(a=1, b=x)` -> `{"a": 1, "b": x}`"""
+    class T(ast.NodeTransformer):
+        def visit_Call(self, node):
+            self.generic_visit(node)
+            if isinstance(node.func, ast.Name) and node.func.id == "dict" and not node.args and node.keywords and all(k.arg for k in node.keywords):
+                return ast.Dict(keys=[ast.Constant(value=k.arg) for k in node.keywords], values=[k.value for k in node.keywords])
+            return node
+    return T().visit(tree)
+
+
+def t_lit2dict(tree):
+    """`{"a": 1, "b": x}` (identifier keys) -> `dict(a=1, b=x)`"""
+    class T(ast.NodeTransformer):
+        def visit_Dict(self, node):
+            self.generic_visit(node)
+            if node.keys and all(isinstance(k, ast.Constant) and isinstance(k.value, str) and k.value.isidentifier() for k in node.keys):
+                import keyword
+                if not any(keyword.iskeyword(k.value) for k in node.keys):
+                    return ast.Call(func=ast.Name(id="dict", ctx=ast.Load()), args=[],
+                                    keywords=[ast.keyword(arg=k.value, value=v) for k, v in zip(node.keys, node.values)])
+            return node
+    return T().visit(tree)
+
+
+def t_compr2loop(tree):
+    """statement-level `x = [E for v in it if c]` / `x = tuple(E for ...)` / `list(...)` with one generator -> explicit loop with append"""
+    class T(ast.NodeTransformer):
+        def _block(self, stmts):
+            out = []
+            for s in stmts:
+                s = self.visit(s)
+                done = False
+                if isinstance(s, ast.Assign) and len(s.targets) == 1 and isinstance(s.targets[0], ast.Name):
+                    v = s.value
+                    wrap = None
+                    comp = None
+                    if isinstance(v, ast.ListComp):
+                        comp = v
+                    elif isinstance(v, ast.Call) and isinstance(v.func, ast.Name) and v.func.id in ("tuple", "list") and len(v.args) == 1 and not v.keywords \
+                            and isinstance(v.args[0], (ast.GeneratorExp, ast.ListComp)):
+                        comp = v.args[0]
+                        wrap = v.func.id
+                    tgt = s.targets[0].id
+                    if comp is not None and len(comp.generators) == 1 and not comp.generators[0].is_async \
+                            and tgt not in {x.id for x in ast.walk(comp) if isinstance(x, ast.Name)}:
+                        g = comp.generators[0]
+                        acc = "_acc_" + tgt
+                        body = [ast.Expr(value=ast.Call(func=ast.Attribute(value=ast.Name(id=acc, ctx=ast.Load()), attr="append", ctx=ast.Load()), args=[comp.elt], keywords=[]))]
+                        for c in reversed(g.ifs):
+                            body = [ast.If(test=c, body=body, orelse=[])]
+                        out.append(ast.Assign(targets=[ast.Name(id=acc, ctx=ast.Store())], value=ast.List(elts=[], ctx=ast.Load()), lineno=s.lineno))
+                        out.append(ast.For(target=g.target, iter=g.iter, body=body, orelse=[], lineno=s.lineno))
+                        fin = ast.Name(id=acc, ctx=ast.Load())
+                        if wrap == "tuple":
+                            fin = ast.Call(func=ast.Name(id="tuple", ctx=ast.Load()), args=[fin], keywords=[])
+                        out.append(ast.Assign(targets=[ast.Name(id=tgt, ctx=ast.Store())], value=fin, lineno=s.lineno))
+                        done = True
+                if not done:
+                    out.append(s)
+            return out
+
+        def generic_visit(self, node):
+            for f in ("body", "orelse", "finalbody"):
+                v = getattr(node, f, None)
+                if isinstance(v, list) and v and isinstance(v[0], ast.stmt):
+                    setattr(node, f, self._block(v))
+            if isinstance(node, ast.Try):
+                for h in node.handlers:
+                    h.body = self._block(h.body)
+            return node
+
+        def visit_ClassDef(self, node):
+            node.body = [self.visit(b) if isinstance(b, (ast.FunctionDef, ast.AsyncFunctionDef)) else b for b in node.body]
+            return node
+
+        def visit_Module(self, node):
+            node.body = [self.visit(b) if isinstance(b, (ast.FunctionDef, ast.AsyncFunctionDef, ast.ClassDef)) else b for b in node.body]
+            return node
+
+        def visit_FunctionDef(self, node):
+            if any("njit" in ast.unparse(d) or "vectorize" in ast.unparse(d) for d in node.decorator_list):
+                return node
+            return self.generic_visit(node)
+    return T().visit(tree)
+
+
 TRANSFORMS = {"unparse": lambda t: t, "locals": t_locals, "negif": t_negif, "retvar": t_retvar, "isnot": t_isnot, "kwswap": t_kwswap,
               "nop": t_nop, "annot": t_annot, "docstrip": t_docstrip, "splitand": t_splitand, "ternary2if": t_ternary2if, "explain": t_explain,
-              "inlinetmp": t_inlinetmp, "methodorder": t_methodorder}
+              "inlinetmp": t_inlinetmp, "methodorder": t_methodorder, "assert2if": t_assert2if, "msgtext": t_msgtext, "dict2lit": t_dict2lit,
+              "lit2dict": t_lit2dict, "compr2loop": t_compr2loop}
 
 
 def overlay_for(name, only=None):
